@@ -23,12 +23,12 @@ CLS = "gmlc::concurrency::Latch"
 def run(ctx):
     ctx.rule("C10.guard", "every modification of counter_ happens with mtx held", floor=1)
     ctx.step(check_guarded_fields, ctx, "C10.guard", CLS)
-    ctx.rule("C10.cv", "wait: lock owns mtx; predicate-less wait sits in a loop re-checking counter_", floor=2)
+    ctx.rule("C10.cv", "wait: lock owns mtx; predicate-less wait sits in a loop re-checking counter_", floor=1)
     ws = ctx.step(check_waits, ctx, "C10.cv", CLS, "cv", "mtx", ["counter_"]) or []
     ctx.step(stable, ctx, ws)
     ctx.step(wake, ctx)
     ctx.step(nonblock, ctx)
-    ctx.step(common.atomic_floors, ctx, "C10.orders", [CLS], floor=3, files=["Latch.hpp"])
+    ctx.step(common.atomic_floors, ctx, "C10.orders", [CLS], floor=2, files=["Latch.hpp"])
     ctx.step(common.raii_only, ctx, "C10.raii", ["Latch.hpp"], floor=3)
 
 
@@ -46,7 +46,7 @@ def counter_mods(ctx):
 def stable(ctx, ws):
     rid = "C10.stable"
     ctx.rule(rid, "counter_ only decreases and the waiter's condition is an inequality (an open latch stays open "
-             "for every later check, also with more arrivals than the count)", floor=2)
+             "for every later check, also with more arrivals than the count)", floor=1)
     mods = counter_mods(ctx)
     ok = bool(mods) and all(op["name"] in ("operator--", "fetch_sub", "operator-=") for _f, _t, op in mods)
     ctx.ob(rid, ok, mods[0][0].loc(mods[0][2]["st"]) if mods else "gmlc/concurrency/Latch.hpp",
@@ -106,7 +106,7 @@ def wake(ctx):
 
 def nonblock(ctx):
     rid = "C10.nonblock"
-    ctx.rule(rid, "arrive never waits (no condition wait, no loop); arrive_and_wait is arrive() then wait()", floor=2)
+    ctx.rule(rid, "arrive never waits (no condition wait, no loop); arrive_and_wait is arrive() then wait()", floor=1)
     fb = ctx.fb
     for f in fb.functions(rec=CLS, name="arrive"):
         waits = [st for st in f.stmts.values() if st["k"] == "CXXMemberCallExpr" and
